@@ -198,7 +198,9 @@ package server
 //@   ghost after call sendAck: ghost.refusalSent := ghost.refusalSent || arg1.AckError == client.Ack_INCORRECT_OFFSET
 //@   loop 1 invariant ghost.refusedOffset ==> ghost.refusalSent
 //@   loop 1 backedge requires [C16:a-refused-conditional-publish-is-answered-at-once] ghost.refusedOffset ==> ghost.refusalSent
-//@   call processPendingMessage requires [stored-pairing] err == nil && 0 <= i && i < len(offsets) && arg1 == offsets[i] && arg2 == msgBatch[i]
+// (an acknowledgement carries the offset at which exactly ITS message is stored: whatever way the loop walks the batch,
+//  the offset and the message handed on are those of one and the same position of the batch just appended)
+//@   call processPendingMessage requires [stored-pairing] err == nil && (exists k int :: 0 <= k && k < len(offsets) && k < len(msgBatch) && arg1 == offsets[k] && arg2 == msgBatch[k])
 //@   call SetHighWatermark requires [stored-offset] err == nil && arg1 == offsets[len(offsets)-1]
 //@   call updateISRLatestOffset requires [stored-offset] err == nil && arg2 == offsets[len(offsets)-1]
 //@   ghost after call IsConcurrencyControlEnabled: ghost.cc := ret0
